@@ -238,245 +238,281 @@ def r184(report, index):
     return r4
 
 
+class Fault(Exception):
+    """an injected failure of a stand-in"""
+
+
+class ECMASyntaxError(Exception):
+    """stand-in of the library exception (matched by name)"""
+
+
+class Stream(object):
+    def __init__(self, name):
+        self.name = name
+        self.closes = 0
+
+
+def io_evaluator(m, extra=None):
+    fns = {
+        'callable': lambda x: isinstance(x, tuple) and x and x[0] in (
+            'pyfunc', 'closure', 'method'),
+        'repr_compat': repr,
+        'chain': lambda *xs: [c for x in xs for c in x],
+        'reversed': lambda x: list(reversed(list(x))),
+    }
+
+    def py_getattr(obj, name, *default):
+        if isinstance(obj, Obj):
+            if obj.has(name):
+                return getattr(obj, name)
+            if default:
+                return default[0]
+            raise AttributeError(name)
+        return getattr(obj, name, *default)
+    fns['getattr'] = py_getattr
+
+    def py_type(o):
+        if isinstance(o, Obj) and o.has('kind'):
+            return ('pyfunc', lambda msg: Obj('exception', kind=o.kind,
+                                              text=msg))
+        raise AnalysisError('type(%r)' % (o,))
+    fns['type'] = py_type
+    fns['str'] = lambda o: o.text if isinstance(o, Obj) and o.has('text') \
+        else str(o)
+    fns.update(extra or {})
+    ev = Evaluator(m, functions=fns, max_steps=100000)
+    ev.evaluate_raises = True
+    return ev
+
+
+def stream_obj(rec, read=None):
+    def close():
+        rec.closes += 1
+    o = Obj('Stream', name=rec.name, close=('pyfunc', close))
+    if read is not None:
+        o.read = ('pyfunc', read)
+    return o
+
+
+def outcome_of(call):
+    """('returns', value) | ('raises', kind, text)"""
+    try:
+        return ('returns', call())
+    except Raised as e:
+        if isinstance(e.value, Obj) and e.value.has('kind'):
+            return ('raises', e.value.kind, e.value.text)
+        return ('raises', e.text.split('(')[0], e.text)
+    except AnalysisError:
+        raise
+    except Exception as e:      # an injected fault propagating
+        return ('raises', type(e).__name__, str(e))
+
+
+def r181(report, m):
+    """io.read evaluated from its source for every stream arrangement and
+    every point at which a step can fail"""
+    r1 = report.rule('R18.1', 'io.read closes a factory-made stream exactly '
+                     'once on every path, never a passed-in one; errors '
+                     'propagate, syntax errors carry the stream name '
+                     '(fault-injection table)', floor=8)
+    read = need_function(m, 'read')
+    faults = ('none', 'factory fails', 'read fails', 'syntax error',
+              'parser fails')
+    for arrangement in ('factory', 'open stream'):
+        for fault in faults:
+            if fault == 'factory fails' and arrangement != 'factory':
+                continue
+            rec = Stream('src.js')
+
+            def do_read(fault=fault):
+                if fault == 'read fails':
+                    raise Fault('read')
+                return 'text'
+            sobj = stream_obj(rec, do_read)
+
+            def factory(fault=fault, sobj=sobj):
+                if fault == 'factory fails':
+                    raise Fault('factory')
+                return sobj
+
+            def parser(text, fault=fault):
+                if fault == 'syntax error':
+                    raise ECMASyntaxError('bad token')
+                if fault == 'parser fails':
+                    raise Fault('parser')
+                return Obj('ES5Program', sourcepath=None)
+            stream = ('pyfunc', factory) if arrangement == 'factory' \
+                else sobj
+            ev = io_evaluator(m)
+            out = outcome_of(lambda: ev.call(
+                read, [('pyfunc', parser), stream])[0])
+            want_closes = 1 if arrangement == 'factory' and \
+                fault != 'factory fails' else 0
+            label = '%s, %s' % (arrangement, fault)
+            problems = []
+            if rec.closes != want_closes:
+                problems.append('the stream is closed %d time(s), expected '
+                                '%d' % (rec.closes, want_closes))
+            if fault == 'none':
+                if out[0] != 'returns' or not isinstance(out[1], Obj) or \
+                        out[1].sourcepath != 'src.js':
+                    problems.append('does not return the tree with '
+                                    'sourcepath = stream name (%r)' % (
+                                        out,))
+            elif fault == 'syntax error':
+                if out[0] != 'raises' or out[1] != 'ECMASyntaxError' or \
+                        'bad token' not in str(out[2]) or \
+                        'src.js' not in str(out[2]):
+                    problems.append('the syntax error is not re-raised '
+                                    'with the stream name (%r)' % (out,))
+            else:
+                if out[0] != 'raises' or out[1] != 'Fault':
+                    problems.append('the failure does not propagate (%r)'
+                                    % (out,))
+            r1.check(not problems, 'read: ' + label, 'io.read(%s)' % label,
+                     '; '.join(problems), where='io.py:read')
+    return r1
+
+
+def r182(report, m):
+    """io.write evaluated from its source for every arrangement of output /
+    map streams and every failing step"""
+    r2 = report.rule('R18.2', 'io.write closes every stream it opened '
+                     'exactly once on every path, never a passed-in one; '
+                     'failures propagate; the printer output and the '
+                     'streams reach the source map writer unchanged '
+                     '(fault-injection table)', floor=30)
+    write = need_function(m, 'write')
+    arrangements = []
+    for out_kind in ('factory', 'open'):
+        for map_kind in ('none', 'same', 'factory', 'open'):
+            arrangements.append((out_kind, map_kind))
+    faults = ('none', 'unparser fails', 'output factory fails',
+              'sourcemap.write fails', 'map factory fails',
+              'write_sourcemap fails')
+    for out_kind, map_kind in arrangements:
+        for fault in faults:
+            if fault == 'output factory fails' and out_kind != 'factory':
+                continue
+            if fault == 'map factory fails' and map_kind != 'factory':
+                continue
+            if fault == 'write_sourcemap fails' and map_kind == 'none':
+                continue
+            out_rec, map_rec = Stream('out.js'), Stream('out.js.map')
+            out_obj, map_obj = stream_obj(out_rec), stream_obj(map_rec)
+            log = []
+
+            def out_factory(fault=fault, o=out_obj):
+                if fault == 'output factory fails':
+                    raise Fault('output factory')
+                return o
+
+            def map_factory(fault=fault, o=map_obj):
+                if fault == 'map factory fails':
+                    raise Fault('map factory')
+                return o
+            output = ('pyfunc', out_factory) if out_kind == 'factory' \
+                else out_obj
+            if map_kind == 'none':
+                smap = None
+            elif map_kind == 'same':
+                smap = output
+            elif map_kind == 'factory':
+                smap = ('pyfunc', map_factory)
+            else:
+                smap = map_obj
+            chunks = [('chunk', 1), ('chunk', 2)]
+
+            def unparser(node, fault=fault):
+                if fault == 'unparser fails':
+                    raise Fault('unparser')
+                return list(chunks)
+
+            def sm_write(cs, stream, normalize=True, fault=fault, log=log):
+                log.append(('write', list(cs), stream))
+                if fault == 'sourcemap.write fails':
+                    raise Fault('sourcemap.write')
+                return (['m'], ['s'], ['n'])
+
+            def sm_write_map(mappings, sources, names, o, s_, fault=fault,
+                             log=log, **kw):
+                log.append(('write_sourcemap', mappings, sources, names, o,
+                            s_))
+                if fault == 'write_sourcemap fails':
+                    raise Fault('write_sourcemap')
+            node = Obj('ES5Program')
+            ev = io_evaluator(m, {'sourcemap.write': sm_write,
+                                  'sourcemap.write_sourcemap': sm_write_map})
+            ev.is_subclass = lambda c, b_: b_ == 'Node' and c == \
+                'ES5Program' or c == b_
+            out = outcome_of(lambda: ev.call(
+                write, [('pyfunc', unparser), node, output, smap])[0])
+            label = 'output %s, map %s, %s' % (out_kind, map_kind, fault)
+            problems = []
+            opened_out = out_kind == 'factory' and fault not in (
+                'unparser fails', 'output factory fails')
+            map_reached = fault in ('none', 'write_sourcemap fails',
+                                    'map factory fails')
+            opened_map = map_kind == 'factory' and map_reached and \
+                fault != 'map factory fails'
+            if out_rec.closes != (1 if opened_out else 0):
+                problems.append('the output stream is closed %d time(s), '
+                                'expected %d' % (out_rec.closes,
+                                                 1 if opened_out else 0))
+            if map_rec.closes != (1 if opened_map else 0):
+                problems.append('the map stream is closed %d time(s), '
+                                'expected %d' % (map_rec.closes,
+                                                 1 if opened_map else 0))
+            if fault == 'none':
+                if out[0] != 'returns':
+                    problems.append('raises %r' % (out,))
+            elif out[0] != 'raises' or out[1] != 'Fault':
+                problems.append('the failure does not propagate (%r)'
+                                % (out,))
+            if fault not in ('unparser fails', 'output factory fails'):
+                w = [x for x in log if x[0] == 'write']
+                if len(w) != 1 or w[0][1] != chunks or w[0][2] is not \
+                        out_obj:
+                    problems.append('sourcemap.write does not receive the '
+                                    'printer output and the output stream '
+                                    'once (%r)' % (w,))
+            if fault in ('none', 'write_sourcemap fails') and \
+                    map_kind != 'none':
+                w = [x for x in log if x[0] == 'write_sourcemap']
+                want_map = out_obj if map_kind == 'same' else map_obj
+                if len(w) != 1 or w[0][1:4] != (['m'], ['s'], ['n']) or \
+                        w[0][4] is not out_obj or w[0][5] is not want_map:
+                    problems.append('write_sourcemap does not receive the '
+                                    'mappings and the two streams (%r)'
+                                    % (w,))
+            r2.check(not problems, 'write: ' + label,
+                     'io.write(%s)' % label, '; '.join(problems),
+                     where='io.py:write')
+    # nodes that are not Nodes are refused before anything is opened
+    out_rec = Stream('out.js')
+    opened = []
+    ev = io_evaluator(m)
+    ev.is_subclass = lambda c, b_: c == b_
+    out = outcome_of(lambda: ev.call(write, [
+        ('pyfunc', lambda n: []), 'not a node',
+        ('pyfunc', lambda: opened.append(1) or stream_obj(out_rec))])[0])
+    r2.check(out[0] == 'raises' and not opened, 'write: bad nodes argument',
+             'io.write(<not a node>)', 'a non-node argument does not raise '
+             'before the output is opened (%r)' % (out,),
+             where='io.py:write')
+    return r2
+
+
 def run(report, index, tier):
     report.explanation = (
-        'Pairing analysis of io.read and io.write over the statement '
-        'structure with exception edges: acquisition sites vs the try/'
-        'finally that releases them, conditions of registration vs '
-        'conditions of acquisition, and absence of exception swallowing.')
+        'io.read and io.write are evaluated from their source with '
+        'stand-in streams, parser, printer and source map writer for every '
+        'arrangement of factories / open streams and every step that can '
+        'fail (fault-injection decision tables); the path arithmetic of '
+        'the map link and the inline data URL are folded on tables.')
     m = index.need(IO_MOD)
-    r1 = report.rule('R18.1', 'io.read closes a factory-made stream exactly '
-                     'once on every path, never a passed-in one', floor=8)
-    read = need_function(m, 'read')
-    body = [s for s in read.body if not (isinstance(s, ast.Expr) and
-                                         isinstance(s.value, ast.Constant))]
-    stream_param = read.args.args[1].arg
-    # acquisition
-    acq = None
-    for i, st in enumerate(body):
-        if isinstance(st, ast.Assign) and isinstance(
-                st.value, ast.IfExp) and ast.unparse(st.value.test) == \
-                'callable(%s)' % stream_param and ast.unparse(
-                st.value.body) == '%s()' % stream_param and ast.unparse(
-                st.value.orelse) == stream_param:
-            acq = (i, st.targets[0].id)
-    if acq is None:
-        raise AnalysisError(
-            'io.read: the acquisition `source = stream() if callable('
-            'stream) else stream` was not found')
-    ai, src = acq
-    tries = [(i, st) for i, st in enumerate(body) if isinstance(st, ast.Try)]
-    r1.check(len(tries) == 1 and tries[0][0] == ai + 1,
-             'read: try follows acquisition', 'io.read',
-             'the acquisition is not immediately followed by the single '
-             'try statement that protects the stream (an exception in '
-             'between leaks the stream)', where='io.py:read')
-    if len(tries) != 1:
-        raise AnalysisError('io.read: expected exactly one try statement')
-    ti, tr = tries[0]
-    r1.check(ti > ai, 'read: acquisition outside try', 'io.read',
-             'the stream factory is called inside the try: if it raises, '
-             'the finally refers to an unbound stream',
-             where='io.py:read')
-    fin = tr.finalbody
-    closes = [c for st in fin for c in calls_in(
-        st, lambda n: ast.unparse(n.func) == '%s.close' % src)]
-    guard_ok = (len(fin) == 1 and isinstance(fin[0], ast.If) and
-                ast.unparse(fin[0].test) == 'callable(%s)' % stream_param
-                and not fin[0].orelse and len(closes) == 1 and
-                closes[0] in [n for n in ast.walk(fin[0])])
-    r1.check(guard_ok, 'read: finally closes iff callable', 'io.read',
-             'the finally clause is not `if callable(stream): '
-             'source.close()` with exactly one close: found %r' % (
-                 [ast.unparse(s) for s in fin],), where='io.py:read')
-    other_closes = [c for st in body for c in calls_in(
-        st, lambda n: isinstance(n.func, ast.Attribute) and
-        n.func.attr == 'close') if c not in closes]
-    r1.check(not other_closes, 'read: single close site', 'io.read',
-             'the stream is closed at %d further site(s): a double close '
-             'or a close of a passed-in stream' % len(other_closes),
-             where='io.py:read')
-    r1.check(not jumps_in(fin), 'read: no jump in finally', 'io.read',
-             'return/break/continue inside finally swallows exceptions',
-             where='io.py:read')
-    # uses of the stream and of the parser are inside the try body
-    risky = []
-    for i, st in enumerate(body):
-        if i in (ai, ti):
-            continue
-        for n in ast.walk(st):
-            if isinstance(n, ast.Call):
-                risky.append((i, ast.unparse(n)))
-    r1.check(not risky, 'read: calls only inside try', 'io.read',
-             'calls outside the protected region: %s' % risky,
-             where='io.py:read')
-    # error re-labelling
-    handlers = []
-    for n in ast.walk(tr):
-        if isinstance(n, ast.Try):
-            handlers.extend(n.handlers)
-    relabel = [h for h in handlers if h.type is not None and
-               'ECMASyntaxError' in ast.unparse(h.type)]
-    ok = False
-    for h in relabel:
-        last = h.body[-1]
-        if isinstance(last, ast.Raise) and last.exc is not None:
-            t = ast.unparse(last.exc)
-            ok = t.startswith('type(%s)(' % h.name) and 'str(%s)' % h.name \
-                in t
-    r1.check(ok, 'read: syntax error re-raised with name', 'io.read',
-             'the ECMASyntaxError handler does not re-raise type(e)(...) '
-             'carrying the original message and the stream name',
-             where='io.py:read')
-    for n in ast.walk(tr):
-        if isinstance(n, ast.Try):
-            sw = swallowing_handlers(n)
-            r1.check(not sw, 'read: no swallowing handler', 'io.read',
-                     'an except clause can complete without raising: the '
-                     'failure would not propagate', where='io.py:read')
-            for h in n.handlers:
-                r1.check(h.type is not None, 'read: no bare except',
-                         'io.read', 'bare except clause', where='io.py:read')
-    # R18.3 sourcepath from the stream name
-    t = ast.unparse(read)
-    name_var = None
-    for n in ast.walk(read):
-        if isinstance(n, ast.Assign) and ast.unparse(n.value) == \
-                "getattr(%s, 'name', None)" % src:
-            name_var = n.targets[0].id
-    after = body[ti + 1:]
-    ok = name_var is not None and any(
-        isinstance(st, ast.Assign) and ast.unparse(st.targets[0]).endswith(
-            '.sourcepath') and ast.unparse(st.value) == name_var
-        for st in after)
-    r1.check(ok, 'read: sourcepath = stream name', 'io.read',
-             'the tree does not record getattr(source, "name", None) as '
-             'its sourcepath', where='io.py:read')
-
-    # R18.2 ---------------------------------------------------------------
-    r2 = report.rule('R18.2', 'io.write acquires inside try/finally, '
-                     'registers closers iff it opened, cleans up once',
-                     floor=8)
-    write = need_function(m, 'write')
-    inner = {st.name: st for st in write.body
-             if isinstance(st, ast.FunctionDef)}
-    closers = [st for st in write.body if isinstance(st, ast.Assign) and
-               isinstance(st.value, ast.List) and not st.value.elts]
-    # find the acquiring helper: the inner function that calls its
-    # argument and appends `.close` to a list
-    getter = cleaner = None
-    for name, f in inner.items():
-        t = ast.unparse(f)
-        if '.close)' in t and 'append' in t:
-            getter = f
-        elif 'reversed(' in t or 'close()' in t:
-            cleaner = f
-    if getter is None or cleaner is None:
-        raise AnalysisError('io.write: get_stream / cleanup helpers not '
-                            'recognised')
-    gp = getter.args.args[0].arg
-    # get_stream shape
-    ifs = [st for st in getter.body if isinstance(st, ast.If)]
-    ok = False
-    detail = 'get_stream is not `if callable(stream): result = stream(); ' \
-        'closer.append(result.close) else: result = stream`'
-    if len(ifs) == 1 and ast.unparse(ifs[0].test) == 'callable(%s)' % gp:
-        tb = [ast.unparse(s) for s in ifs[0].body]
-        eb = [ast.unparse(s) for s in ifs[0].orelse]
-        made = [s for s in ifs[0].body if isinstance(s, ast.Assign) and
-                ast.unparse(s.value) == '%s()' % gp]
-        if made:
-            var = made[0].targets[0].id
-            reg = [s for s in tb if s.endswith(
-                '.append(%s.close)' % var)]
-            reg_else = [s for s in eb if '.append(' in s or '.close' in s]
-            ok = len(reg) == 1 and not reg_else and any(
-                s == '%s = %s' % (var, gp) for s in eb)
-            # registration right after creation: nothing raising between
-            idx_made = ifs[0].body.index(made[0])
-            idx_reg = tb.index(reg[0]) if reg else -1
-            if ok and idx_reg != idx_made + 1:
-                ok = False
-                detail = 'the closer is not registered immediately after ' \
-                    'the stream is created'
-            rets = [s for s in getter.body if isinstance(s, ast.Return)]
-            if ok and not (rets and ast.unparse(rets[-1].value) == var):
-                ok = False
-                detail = 'get_stream does not return the stream'
-    r2.check(ok, 'write: get_stream registers iff it opened',
-             'io.write.get_stream', detail, where='io.py:write')
-    # cleanup shape: each registered closer called once
-    loops = [st for st in cleaner.body if isinstance(st, ast.For)]
-    ok = len(cleaner.body) == 1 and len(loops) == 1 and \
-        len(loops[0].body) == 1 and ast.unparse(loops[0].body[0]) == \
-        '%s()' % ast.unparse(loops[0].target) and not loops[0].orelse
-    if ok:
-        it = ast.unparse(loops[0].iter)
-        lst = closers[0].targets[0].id if closers else None
-        ok = it in ('reversed(%s)' % lst, lst)
-    r2.check(ok, 'write: cleanup closes each once', 'io.write.cleanup',
-             'cleanup is not a single loop calling every registered '
-             'closer exactly once', where='io.py:write')
-    tries = [st for st in write.body if isinstance(st, ast.Try)]
-    if len(tries) != 1:
-        raise AnalysisError('io.write: expected exactly one try statement')
-    tr = tries[0]
-    fin_calls = [c for st in tr.finalbody for c in calls_in(
-        st, lambda n: ast.unparse(n.func) == cleaner.name)]
-    all_cleanups = calls_in(write, lambda n: ast.unparse(n.func) ==
-                            cleaner.name)
-    r2.check(len(fin_calls) == 1 and len(all_cleanups) == 1 and
-             len(tr.finalbody) == 1 and isinstance(
-                 tr.finalbody[0], ast.Expr),
-             'write: cleanup exactly once in finally', 'io.write',
-             'cleanup() is not called exactly once, unconditionally, in '
-             'the finally clause (found %d call(s), %d in finally)' % (
-                 len(all_cleanups), len(fin_calls)), where='io.py:write')
-    acquisitions = calls_in(write, lambda n: ast.unparse(n.func) ==
-                            getter.name)
-    in_try = [c for st in tr.body for c in calls_in(
-        st, lambda n: ast.unparse(n.func) == getter.name)]
-    for c in acquisitions:
-        r2.check(c in in_try, 'write: %s inside try' % ast.unparse(c),
-                 ast.unparse(c),
-                 'stream acquisition outside the try/finally: a failure '
-                 'after it leaks the stream', where='io.py:write (line %s)'
-                 % c.lineno)
-    # direct factory calls that bypass get_stream
-    params = [a.arg for a in write.args.args]
-    bypass = [c for c in calls_in(write, lambda n: isinstance(
-        n.func, ast.Name) and n.func.id in params and
-        'stream' in n.func.id)
-        if not any(c in ast.walk(f) for f in (getter,))]
-    r2.check(not bypass, 'write: no direct factory call', 'io.write',
-             'a stream factory is called without registering its closer: '
-             '%s' % [ast.unparse(c) for c in bypass], where='io.py:write')
-    r2.check(not jumps_in(tr.finalbody), 'write: no jump in finally',
-             'io.write', 'return/break/continue in finally swallows the '
-             'exception', where='io.py:write')
-    for n in ast.walk(write):
-        if isinstance(n, ast.Try):
-            for h in n.handlers:
-                r2.check(isinstance(h.body[-1], ast.Raise) and
-                         h.type is not None,
-                         'write: handler re-raises', 'io.write',
-                         'an except clause may swallow the failure',
-                         where='io.py:write')
-    # streams passed in open are never closed: no .close outside helpers
-    stray = [c for c in calls_in(write, lambda n: isinstance(
-        n.func, ast.Attribute) and n.func.attr == 'close')]
-    r2.check(not stray, 'write: no direct close', 'io.write',
-             'a stream is closed directly (%s): passed-in streams must '
-             'stay open and opened ones are closed by cleanup' % [
-                 ast.unparse(c) for c in stray], where='io.py:write')
-    # the output text is what the unparser yields: chunks flow unmodified
-    sm_calls = calls_in(tr, lambda n: ast.unparse(n.func) ==
-                        'sourcemap.write')
-    ok = len(sm_calls) == 1 and sm_calls[0].args and isinstance(
-        sm_calls[0].args[0], ast.Name)
-    r2.check(ok, 'write: chunks to sourcemap.write', 'io.write',
-             'the fragment stream is not handed to sourcemap.write '
-             'unmodified', where='io.py:write')
+    r181(report, m)
+    r182(report, m)
     report.informational.append(
         'observation outside the stated property: cleanup() stops at the '
         'first close() that itself raises')
